@@ -338,10 +338,10 @@ impl C13 {
         let doc = match rng.below(10) {
             0..=4 => pool.generated(&Family::Rich, rng.below(gen_pool)),
             5 => {
-                if rng.coin() {
-                    pool.generated(&Family::TwoLeaf, rng.below(4))
-                } else {
-                    pool.generated(&Family::DeepTree, rng.below(4))
+                match rng.below(3) {
+                    0 => pool.generated(&Family::TwoLeaf, rng.below(4)),
+                    1 => pool.generated(&Family::DeepTree, rng.below(4)),
+                    _ => pool.generated(&Family::Dangling, rng.below(4)),
                 }
             }
             6 | 7 => pool.generated(&Family::CyclicParents, rng.below(4)),
